@@ -22,8 +22,8 @@ import (
 )
 
 type c02Step struct {
-	Kind      string // apply, snapshot, snapshot-fail, restore, restart
-	N         int    // apply: number of entries
+	Kind      string // apply, snapshot, snapshot-fail, snapshot-late, restore, restart
+	N         int    // apply: number of entries; snapshot-late: entries applied between Snapshot() and Persist()
 	CutAt     int    // snapshot: position (in applied entries) whose timestamp is the compaction end; -1 nothing old, 1<<30 everything old
 	FailAfter int    // snapshot-fail: bytes
 }
@@ -61,6 +61,14 @@ func c02Schedule(rng *rand.Rand, n int) []c02Step {
 			}
 			if rng.Intn(4) == 0 {
 				steps = append(steps, c02Step{Kind: "snapshot-fail", CutAt: cut, FailAfter: []int{0, 1, 5, 9, 40, 200, 1000}[rng.Intn(7)]})
+			} else if rng.Intn(4) == 0 && remaining > 0 {
+				// entries are applied while the snapshot is being persisted; then the node starts from it
+				k := rng.Intn(4) + 1
+				if k > remaining {
+					k = remaining
+				}
+				steps = append(steps, c02Step{Kind: "snapshot-late", CutAt: cut, N: k}, c02Step{Kind: []string{"restore", "restart"}[rng.Intn(2)]})
+				remaining -= k
 			} else {
 				steps = append(steps, c02Step{Kind: "snapshot", CutAt: cut})
 			}
@@ -314,9 +322,22 @@ func runC02Case(rep *verifrep.R, dir string, c c02Case) {
 				}
 				r.applied++
 			}
-		case "snapshot", "snapshot-fail":
+		case "snapshot", "snapshot-fail", "snapshot-late":
 			if r.applied == 0 {
 				continue
+			}
+			snapIndex := r.logs[r.applied-1].Index
+			r.f.betweenSnapshotAndPersist = nil
+			if st.Kind == "snapshot-late" {
+				r.f.betweenSnapshotAndPersist = func() {
+					for k := 0; k < st.N && r.applied < len(r.logs); k++ {
+						if !r.applyOne(r.applied) {
+							return
+						}
+						r.applied++
+						r.rep.Obs("snapshot.entries-applied-during-persist", 1)
+					}
+				}
 			}
 			exp := r.expiration()
 			var cstart int64
@@ -336,7 +357,8 @@ func runC02Case(rep *verifrep.R, dir string, c c02Case) {
 			if st.Kind == "snapshot-fail" {
 				fail = st.FailAfter
 			}
-			rs, persisted, err := r.f.snapshot(r.logs[r.applied-1].Index, cstart, fail)
+			rs, persisted, err := r.f.snapshot(snapIndex, cstart, fail)
+			r.f.betweenSnapshotAndPersist = nil
 			if err != nil {
 				if firstBefore == 0 && strings.Contains(err.Error(), "< 1") {
 					// an empty log copy cannot be snapshotted; nothing changes
@@ -347,7 +369,7 @@ func runC02Case(rep *verifrep.R, dir string, c c02Case) {
 				break
 			}
 			if persisted {
-				lastSnapIndex = r.logs[r.applied-1].Index
+				lastSnapIndex = snapIndex
 			}
 			// horizon: nothing newer than compaction time - (expiration + 10s) may be folded
 			horizon := cstart - int64(exp+expireSessionsInterval)
